@@ -96,6 +96,14 @@ def cpp_source(shard):
             L.append('  Tensor<T,%s> B; vh_fill(B.data(), %d, %d, -4, 4);' % (dd(c['db']), nb, c['sb']))
         if c['k'] == 'E2':
             L.append('  { auto r = einsum<Index<%s>,Index<%s>>(A, B); put_result("E", id, r); }' % (dd(c['I']), dd(c['J'])))
+            if c['id'] % 4 == 0 and len(set(c['I'])) == len(c['I']) and len(set(c['J'])) == len(c['J']):
+                # expression operands (abstract_contraction.h) and the contraction<> spelling
+                II, JJ = dd(c['I']), dd(c['J'])
+                L.append('  { auto r = einsum<Index<%s>,Index<%s>>(A + (T)0 * A, B); put_result("E", id, r); }' % (II, JJ))
+                L.append('  { auto r = einsum<Index<%s>,Index<%s>>(A, B + (T)0 * B); put_result("E", id, r); }' % (II, JJ))
+                L.append('  { auto r = einsum<Index<%s>,Index<%s>>(A + (T)0 * A, B + (T)0 * B); put_result("E", id, r); }' % (II, JJ))
+                L.append('  { auto r = contraction<Index<%s>,Index<%s>>(A, B); put_result("E", id, r); }' % (II, JJ))
+                L.append('  { auto r = contraction<Index<%s>,Index<%s>>(A + (T)0 * A, B + (T)0 * B); put_result("E", id, r); }' % (II, JJ))
             L.append('  std::printf("K %%ld %%d %%d %%d\\n", id, (int)internal::is_generalised_matrix_vector<Index<%s>,Index<%s>>::value, (int)internal::is_generalised_vector_matrix<Index<%s>,Index<%s>>::value, (int)internal::is_generalised_matrix_matrix<Index<%s>,Index<%s>>::value);' % ((dd(c['I']), dd(c['J'])) * 3))
         elif c['k'] == 'E1':
             L.append('  { auto r = einsum<Index<%s>>(A); put_result("E", id, r); }' % dd(c['I']))
